@@ -2,6 +2,8 @@
 // stateful multi-iterator client checked against an ordered-map model.
 // Serves C01 C02 C03 C08 C09 C10 C11.
 #include "common.h"
+#include <algorithm>
+#include <functional>
 #include "tablelib.h"
 #include "../sim/simsched.h"
 #include "../sim/seams.h"
@@ -193,7 +195,7 @@ static Plan gen_table(const std::string &prop, const std::string &tier, uint64_t
 			KeyGen kg(r);
 			std::string kp = r.chance(1, 2) ? "-" : "@k" + std::to_string(r.below(400)) + ":6";
 			std::string vp = r.chance(1, 2) ? "-" : r.chance(1, 2) ? "x76" : "x7676";
-			p.op("dump", { kp, vp, std::to_string(r.chance(1, 2) ? 0 : r.below(12)), std::to_string(r.chance(1, 2) ? 0 : r.below(12)) });
+			p.op("dump", { kp, vp, std::to_string(r.chance(1, 2) ? 0 : r.below(12)), std::to_string(r.chance(1, 2) ? 0 : r.below(12)), std::to_string(r.chance(1, 2) ? 0 : r.chance(4, 5) ? 1 : 2) });
 		}
 		if (prop == "C10" && r.chance(1, thorough ? 5 : 10)) p.op("info");
 	} else if (prop == "C02") {
@@ -299,10 +301,16 @@ bool tablelib_write(const Plan &p, RunResult &res, const std::string &path, Tabl
 	if (prefix_out) *prefix_out = pre;
 
 	mtbl_writer_options *wo = mtbl_writer_options_init();
-	mtbl_writer_options_set_compression(wo, (mtbl_compression_type)comp);
-	if (p.gets("level", "def") != "def") mtbl_writer_options_set_compression_level(wo, (int)p.geti("level"));
-	if (p.geti("bsize_set", 1)) mtbl_writer_options_set_block_size(wo, (size_t)p.geti("bsize", 8192));
-	mtbl_writer_options_set_block_restart_interval(wo, (size_t)p.geti("rint", 16));
+	{
+		// setters in any order; one in three is first given another value and then the intended one
+		std::vector<std::function<void(bool)>> set;
+		set.push_back([&](bool ff) { if (ff) mtbl_writer_options_set_compression(wo, (mtbl_compression_type)((comp + 1 + optvar_next() % 5) % 6)); mtbl_writer_options_set_compression(wo, (mtbl_compression_type)comp); });
+		if (p.gets("level", "def") != "def") set.push_back([&](bool ff) { if (ff) mtbl_writer_options_set_compression_level(wo, (int)(optvar_next() % 40) - 10); mtbl_writer_options_set_compression_level(wo, (int)p.geti("level")); });
+		if (p.geti("bsize_set", 1)) set.push_back([&](bool ff) { if (ff) mtbl_writer_options_set_block_size(wo, (size_t)(optvar_next() % 100000)); mtbl_writer_options_set_block_size(wo, (size_t)p.geti("bsize", 8192)); });
+		set.push_back([&](bool ff) { if (ff) mtbl_writer_options_set_block_restart_interval(wo, (size_t)(1 + optvar_next() % 64)); mtbl_writer_options_set_block_restart_interval(wo, (size_t)p.geti("rint", 16)); });
+		for (size_t i = set.size(); i > 1; i--) std::swap(set[i - 1], set[optvar_next() % i]);
+		for (auto &f : set) f(optvar_next() % 3 == 0);
+	}
 
 	mtbl_threadpool *tp = nullptr;
 	bool sched = pool >= 0;
@@ -511,9 +519,7 @@ static RunResult exec_table(const Plan &p)
 	}
 
 	// ---- open with the library
-	mtbl_reader_options *ro = mtbl_reader_options_init();
-	mtbl_reader_options_set_verify_checksums(ro, p.geti("verify", 0));
-	mtbl_reader_options_set_madvise_random(ro, p.geti("madv", 0));
+	mtbl_reader_options *ro = make_reader_options(p.geti("verify", 0) != 0, p.geti("madv", 0) != 0);
 	if (p.geti("rinitfd", 0)) {
 		int fd = open(c.path.c_str(), O_RDONLY);
 		c.reader = mtbl_reader_init_fd(fd, ro);
@@ -570,7 +576,10 @@ static RunResult exec_table(const Plan &p)
 		} else if (o.name == "huge64") {
 			huge64_check(res, o.arg(0) == "builder", (uint64_t)o.argi(1));
 		} else if (o.name == "dump") {
-			std::vector<std::string> av{ tool_path("mtbl_dump"), "-x" };
+			int dmode = (int)(o.argi(4) % 3);	// 0 -x (hex), 1 default text rendering, 2 -s (silent: filters run, nothing printed)
+			std::vector<std::string> av{ tool_path("mtbl_dump") };
+			if (dmode == 0) av.push_back("-x");
+			if (dmode == 2) av.push_back("-s");
 			Bytes kp, vp; bool hk = false, hv = false;
 			if (!o.arg(0).empty() && o.arg(0) != "-") { kp = cl.resolve(o.arg(0), nullptr); if (!kp.empty()) { hk = true; av.push_back("-k"); av.push_back(hex(kp)); } }
 			if (!o.arg(1).empty() && o.arg(1) != "-") { vp = cl.resolve(o.arg(1), nullptr); if (!vp.empty()) { hv = true; av.push_back("-v"); av.push_back(hex(vp)); } }
@@ -582,6 +591,33 @@ static RunResult exec_table(const Plan &p)
 			int st = run_cmd(av, &out, &errs);
 			res.probes["mtbl_dump-run"]++;
 			if (st != 0) { res.fail("TOOL", "DUMP-status", "mtbl_dump exited with " + std::to_string(st) + ": " + errs.substr(0, 200)); continue; }
+			if (dmode != 0) {
+				// text mode: the documented rendering ("..." with \" for a quote and \xNN for bytes outside 0x20..0x7e) of exactly
+				// the matching entries, in order; the rendering is not injective, so the expected text is produced from the model
+				Bytes want;
+				size_t nwant = 0;
+				auto render = [&](const Bytes &b) {
+					want.push_back('"');
+					for (unsigned char ch : b) {
+						if (ch >= 0x20 && ch <= 0x7e) { if (ch == '"') want += "\\\""; else want.push_back((char)ch); }
+						else { char t[8]; snprintf(t, sizeof t, "\\x%02x", ch); want += t; }
+					}
+					want.push_back('"');
+				};
+				for (auto &kv : c.model) {
+					if (!((!hk || has_prefix(kv.first, kp)) && (!hv || has_prefix(kv.second, vp)) && kv.first.size() >= K && kv.second.size() >= V)) continue;
+					if (dmode == 1) { render(kv.first); want.push_back(' '); render(kv.second); want.push_back('\n'); }
+					nwant++;
+				}
+				res.probes[dmode == 1 ? "mtbl_dump-text-mode" : "mtbl_dump-silent-mode"]++;
+				if (out != want) {
+					size_t d = 0; while (d < out.size() && d < want.size() && out[d] == want[d]) d++;
+					size_t line = (size_t)std::count(want.begin(), want.begin() + (long)d, '\n');
+					res.fail("TOOL", dmode == 1 ? "DUMP-text" : "DUMP-silent-prints", "mtbl_dump " + std::string(dmode == 1 ? "(text mode)" : "-s") + " output differs from the rendering of the " + std::to_string(nwant) + " matching entries at byte " + std::to_string(d) + " (line " + std::to_string(line) + "): got " + short_repr(out.substr(d, 24)) + ", expected " + short_repr(want.substr(d, 24)));
+				}
+				res.ev.u(nwant);
+				continue;
+			}
 			auto pos = c.model.begin();
 			size_t ln = 0, i = 0;
 			bool bad = false;
